@@ -20,6 +20,7 @@ def run(tier):
     rep.rule('R05.2', 'Discover (ToS 0/1): no mapper -> Hello + mapper := sender; active & same sender -> Hello; active & other sender -> silence, unchanged', floor=6)
     rep.rule('R05.3', 'Reset (ToS 0/1) releases the mapper', floor=2)
     rep.rule('R05.4', 'every other frame of the discovery services leaves the mapper identity alone (commands never release it)', floor=4)
+    rep.rule('R05.6', 'a command that is dropped (no reply, no other record field changed) does not establish the mapper: only accepted frames open a session', floor=2)
     rep.rule('R05.cov', 'the abstract result covers all 256 x 256 (ToS, opcode) pairs in both mapper states', floor=2)
     cover = {0: set(), 1: set()}
     ncells = 0
@@ -133,6 +134,14 @@ def check_state(rep, s):
                       'a %s while a mapper is active releases it (mapper_known -> %s)' % (opclass(ops), s.k_post_dom), function=fn, sample=desc)
         else:
             rep.ok('R05.4')
+        # only an ACCEPTED frame opens a session: a path on which the command is dropped (nothing transmitted, no other
+        # field of the record touched - not even its sequence number adopted) must not make its sender the mapper
+        if not (s.unchanged('mapper_known', 1) and s.unchanged('mapper_real', 6)):
+            other = s.changed_fields(('mapper_known', 'mapper_real', 'mapper_apparent'))
+            rep.check(nsent >= 1 or bool(other), 'R05.6', 'command|%s|tos%s|dropped-opens' % (opclass(ops), ','.join(str(t) for t in tv)),
+                      'a %s (ToS %s) that the responder drops - nothing is transmitted and no other field of the interface record changes - '
+                      'nevertheless makes its sender the active mapper (mapper_known %s -> %s): an ignored frame opens a session'
+                      % (opclass(ops), s.tos, s.k_pre, s.k_post_dom), function=fn, file='lltdResponder/lltdBlock.c', sample=desc)
         return
     # everything else: identity untouched, no Hello
     ok = s.unchanged('mapper_known', 1) and s.unchanged('mapper_real', 6) and not hello
